@@ -54,6 +54,9 @@ func checkProgram(r *engine.R, p program, abort bool) {
 	if abort {
 		mode = "abort-checks"
 	}
+	if os.Getenv("C29_SHOW_REJECTED") != "" {
+		fmt.Fprintf(os.Stderr, "PROGRAM %s %s\n", p.id, mode)
+	}
 	fn, res := compileWith(p.src, abort)
 	r.Eval(1)
 	switch {
